@@ -12,7 +12,7 @@ package validation
 //verif:assume the wall clock is a single arbitrary instant during one validation (override of time.Now for the solver; the native replay uses the real clock and places the header timestamp relative to it)
 //verif:assume the checkpoint's timestamp is not after the parent block's timestamp (it is the timestamp of an ancestor)
 //verif:assume ed25519: XPrv.Sign returns arbitrary bytes for the solver and XPub.Verify is an uninterpreted predicate constrained by: a signature verifies under the key that made it and under no other key (real signing and verification in the native replay); SHA3 uninterpreted and collision-free
-//verif:bound block (thorough): a valid coinbase transaction followed by one spend transaction (one input, one output, arbitrary assets, amounts, source position, serialized size below 2^32) and an arbitrary or correct merkle root
+//verif:bound block of two: a valid coinbase transaction followed by one spend transaction (thorough: one veto-to-vote transaction) (one input, one output, arbitrary assets, amounts, source position, serialized size below 2^32) and an arbitrary or correct merkle root
 //verif:assume bc.Hash.String (protobuf text form, used for a log line only) is cut
 //verif:assume heights below 2^62: no uint64 wrap-around of creation height + pending period
 //verif:outside where in a chain or fork Chain.ProcessBlock runs these checks (orphan handling, reorganisation: goroutines and the store); validator sets elected by votes (sort.Slice over a map, not encodable); reward-height coinbase amounts (hex-keyed map of control programs); blocks with more than the coinbase transaction in ValidateBlock (transaction validity itself is C01/C02)
@@ -24,7 +24,8 @@ package validation
 //verif:obligation fn=VerifC13Header args=0 validate=12 mode=int
 //verif:obligation fn=VerifC13Block args=0;1 validate=12 mode=int
 //verif:override (*github.com/bytom/bytom/protocol/bc.Hash).String -> verifC13HashString
-//verif:obligation fn=VerifC13BlockTx args=0 mode=int tier=thorough secs=3000
+//verif:obligation fn=VerifC13BlockTx args=0 mode=int validate=12
+//verif:obligation fn=VerifC13BlockTx args=1 mode=int tier=thorough secs=3000
 
 import (
 	"time"
@@ -308,7 +309,7 @@ func VerifC13Block(outKind int) {
 // a block of a valid coinbase transaction and one arbitrary spend transaction:
 // the block is accepted exactly if that transaction is valid on its own and the
 // merkle root field is the root of the two transaction ids
-func VerifC13BlockTx(_ int) {
+func VerifC13BlockTx(kind int) {
 	verifC13Clock = int64(verifU64("now.sec"))
 	verifAssume(verifC13Clock >= 10 && verifC13Clock < 1<<33)
 	now := uint64(time.Now().UnixNano() / 1e6)
@@ -329,13 +330,17 @@ func VerifC13BlockTx(_ int) {
 	// the serialized size is the byte length of the wire form
 	size := verifU64("size")
 	verifAssume(size < 1<<32)
-	spend := types.NewTx(types.TxData{
-		Version:        1,
-		SerializedSize: size,
-		Inputs: []*types.TxInput{types.NewSpendInput(nil, bc.NewHash(sha3.Sum256([]byte{1})), bc.AssetID{V0: verifU64("in.asset"), V1: m, V2: m, V3: m},
-			verifU64("in.amount"), verifU64("in.pos"), []byte{0x51}, nil)},
-		Outputs: []*types.TxOutput{types.NewOriginalTxOutput(bc.AssetID{V0: verifU64("out.asset"), V1: m, V2: m, V3: m}, verifU64("out.amount"), []byte{0x51}, nil)},
-	})
+	inAsset := bc.AssetID{V0: verifU64("in.asset"), V1: m, V2: m, V3: m}
+	outAsset := bc.AssetID{V0: verifU64("out.asset"), V1: m, V2: m, V3: m}
+	src := bc.NewHash(sha3.Sum256([]byte{1}))
+	in := types.NewSpendInput(nil, src, inAsset, verifU64("in.amount"), verifU64("in.pos"), []byte{0x51}, nil)
+	out := types.NewOriginalTxOutput(outAsset, verifU64("out.amount"), []byte{0x51}, nil)
+	if kind == 1 {
+		// a veto of a vote output re-voted
+		in = types.NewVetoInput(nil, src, inAsset, verifU64("in.amount"), verifU64("in.pos"), []byte{0x51}, make([]byte, 64), nil)
+		out = types.NewVoteOutput(outAsset, verifU64("out.amount"), []byte{0x51}, make([]byte, 64), nil)
+	}
+	spend := types.NewTx(types.TxData{Version: 1, SerializedSize: size, Inputs: []*types.TxInput{in}, Outputs: []*types.TxOutput{out}})
 	root, _ := types.TxMerkleRoot([]*bc.Tx{coinbase.Tx, spend.Tx})
 	b := &types.Block{
 		BlockHeader:  types.BlockHeader{Version: 1, Height: height, PreviousBlockHash: parent.Hash(), Timestamp: now},
